@@ -8,6 +8,7 @@ use std::cmp::Ordering;
 use std::collections::BTreeMap;
 use rpki::rtr::state::{Serial, State};
 use rpki_verif::engine::enumerate::par_chunks;
+use rayon::prelude::*;
 use rpki_verif::{guard, Ctx};
 
 fn model(a: u32, b: u32) -> Option<Ordering> {
@@ -276,6 +277,101 @@ fn main() {
     sp.outcomes_n("v0-end-of-data-12-octets", serials.len() as u64); sp.outcomes_n("v1v2-end-of-data-24-octets", 2 * serials.len() as u64);
     sp.sample_str(|| format!("{} serials x 3 versions x 4 PDU kinds", serials.len()));
     sp.done(true, "all serials of the stated set");
+
+    //---------------------------------------------------------------- several PDUs in one stream
+    {
+        use futures_util::FutureExt;
+        use rpki::rtr::pdu;
+        let sp = ctx.space("wire.streams",
+            "every sequence of 2 and 3 PDUs over {SerialNotify, SerialQuery, EndOfData v0, EndOfData v1/v2, CacheResponse, ResetQuery, CacheReset, Error (embedded PDU of 0/12 octets x text of 0/5 octets)} with pairwise different serials from {0, 0x7fffffff, 0x80000000, 0xffffffff, 0x01020304}, written by the library into ONE buffer and read back from ONE reader, each PDU by each of its read routes {read, try_read, Header::read + read_payload; for an Error PDU: Header::read + Error::skip_payload, and try_read of seven other concrete types followed by Error::skip_payload}; oracle: every serial comes back as written, every PDU reads back equal, and the reader is empty exactly after the last PDU (a reader that looks ahead or consumes too much loses the serial of the PDU queued behind); non-trivial = every sequence");
+        #[derive(Clone, Copy, Debug, PartialEq)]
+        enum It { Sn, Sq, Eod0, Eod1, Cresp, Rq, Cr, Err(usize, usize) }
+        let alphabet = [It::Sn, It::Sq, It::Eod0, It::Eod1, It::Cresp, It::Rq, It::Cr, It::Err(0, 0), It::Err(12, 0), It::Err(0, 5), It::Err(12, 5)];
+        let serial_pool = [0u32, 0x7fff_ffff, 0x8000_0000, 0xffff_ffff, 0x0102_0304];
+        let timing = rpki::rtr::payload::Timing { refresh: 3600, retry: 600, expire: 7200 };
+        let write = |it: It, x: u32, out: &mut Vec<u8>| -> Result<(), String> {
+            let st = State::from_parts(0xBEEF, Serial(x));
+            let r = match it {
+                It::Sn => pdu::SerialNotify::new(1, st).write(out).now_or_never(),
+                It::Sq => pdu::SerialQuery::new(1, st).write(out).now_or_never(),
+                It::Eod0 => pdu::EndOfData::new(0, st, timing).write(out).now_or_never(),
+                It::Eod1 => pdu::EndOfData::new(1, st, timing).write(out).now_or_never(),
+                It::Cresp => pdu::CacheResponse::new(1, st).write(out).now_or_never(),
+                It::Rq => pdu::ResetQuery::new(1).write(out).now_or_never(),
+                It::Cr => pdu::CacheReset::new(1).write(out).now_or_never(),
+                It::Err(p, t) => pdu::Error::new(1, 2, vec![0xabu8; p], vec![b'x'; t]).write(out).now_or_never(),
+            };
+            r.ok_or("write pending")?.map_err(|e| e.to_string())
+        };
+        // reads one item by route `route`; returns the serial found (if the item carries one)
+        let read = |it: It, route: u8, rd: &mut &[u8]| -> Result<Option<u32>, String> {
+            macro_rules! conc { ($t:ty, $get:expr) => {{
+                let v: $t = match route {
+                    0 => <$t>::read(rd).now_or_never().ok_or("read pending")?.map_err(|e| format!("read: {e}"))?,
+                    1 => <$t>::try_read(rd).now_or_never().ok_or("read pending")?.map_err(|e| format!("try_read: {e}"))?.map_err(|_| "try_read returned a foreign header".to_string())?,
+                    _ => { let h = pdu::Header::read(rd).now_or_never().ok_or("read pending")?.map_err(|e| format!("Header::read: {e}"))?;
+                           <$t>::read_payload(h, rd).now_or_never().ok_or("read pending")?.map_err(|e| format!("read_payload: {e}"))? }
+                };
+                #[allow(clippy::redundant_closure_call)]
+                Ok(($get)(&v))
+            }} }
+            match it {
+                It::Sn => conc!(pdu::SerialNotify, |v: &pdu::SerialNotify| Some(u32::from_be_bytes(v.as_ref()[8..12].try_into().unwrap()))),
+                It::Sq => conc!(pdu::SerialQuery, |v: &pdu::SerialQuery| Some(u32::from_be_bytes(v.as_ref()[8..12].try_into().unwrap()))),
+                It::Eod0 => conc!(pdu::EndOfDataV0, |v: &pdu::EndOfDataV0| Some(v.serial().0)),
+                It::Eod1 => conc!(pdu::EndOfDataV1, |v: &pdu::EndOfDataV1| Some(v.serial().0)),
+                It::Cresp => conc!(pdu::CacheResponse, |_v: &pdu::CacheResponse| None),
+                It::Rq => conc!(pdu::ResetQuery, |_v: &pdu::ResetQuery| None),
+                It::Cr => conc!(pdu::CacheReset, |_v: &pdu::CacheReset| None),
+                It::Err(p, t) => {
+                    match route {
+                        0 | 1 => { let h = pdu::Header::read(rd).now_or_never().ok_or("read pending")?.map_err(|e| format!("Header::read: {e}"))?;
+                               if h.length() as usize != 16 + p + t { return Err(format!("Error PDU of {} octets announces {}", 16 + p + t, h.length())) }
+                               pdu::Error::skip_payload(h, rd).now_or_never().ok_or("read pending")?.map_err(|e| format!("skip_payload: {e}"))? }
+                        // a client expecting some concrete PDU meets the Error PDU, gets its header back and skips it
+                        r => {
+                            macro_rules! expect { ($t:ty) => { <$t>::try_read(rd).now_or_never().ok_or("read pending")?.map_err(|e| format!("try_read: {e}"))?.err().ok_or("try_read took an Error PDU for its own type")? } }
+                            let h = match r { 2 => expect!(pdu::SerialNotify), 3 => expect!(pdu::EndOfDataV0), 4 => expect!(pdu::EndOfDataV1), 5 => expect!(pdu::CacheResponse), 6 => expect!(pdu::CacheReset), 7 => expect!(pdu::Ipv4Prefix), _ => expect!(pdu::Ipv6Prefix) };
+                            pdu::Error::skip_payload(h, rd).now_or_never().ok_or("read pending")?.map_err(|e| format!("skip_payload: {e}"))?
+                        }
+                    }
+                    Ok(None)
+                }
+            }
+        };
+        let routes = |it: It| -> u8 { if matches!(it, It::Err(..)) { 9 } else { 3 } };
+        let mut seqs: Vec<Vec<It>> = Vec::new();
+        for a in alphabet { for b in alphabet { seqs.push(vec![a, b]); for c in alphabet { seqs.push(vec![a, b, c]) } } }
+        seqs.par_iter().for_each(|seq| {
+            for rot in 0..serial_pool.len() {
+                let xs: Vec<u32> = (0..seq.len()).map(|i| serial_pool[(rot + i) % serial_pool.len()]).collect();
+                let mut buf = Vec::new();
+                if let Err(e) = guard(|| seq.iter().zip(&xs).try_for_each(|(it, x)| write(*it, *x, &mut buf))).and_then(|r| r) { ctx.fail("C16.wire.stream", format!("{seq:?} serials={xs:x?}"), format!("write: {e}")); continue }
+                // every combination of read routes
+                let nr: Vec<u8> = seq.iter().map(|it| routes(*it)).collect();
+                let total: u32 = nr.iter().map(|n| *n as u32).product();
+                for combo in 0..total {
+                    let mut c = combo; let rs: Vec<u8> = nr.iter().map(|n| { let r = (c % *n as u32) as u8; c /= *n as u32; r }).collect();
+                    sp.eval();
+                    let wit = || format!("{seq:?} serials={xs:x?} routes={rs:?}");
+                    let r = guard(|| -> Result<(), String> {
+                        let mut rd = &buf[..];
+                        for (k, it) in seq.iter().enumerate() {
+                            let got = read(*it, rs[k], &mut rd).map_err(|e| format!("PDU #{k}: {e}"))?;
+                            if let Some(g) = got { if g != xs[k] { return Err(format!("PDU #{k}: serial written {:#x}, read {g:#x}", xs[k])) } }
+                        }
+                        if !rd.is_empty() { return Err(format!("{} octets left in the reader after the last PDU", rd.len())) }
+                        Ok(())
+                    });
+                    match r { Ok(Ok(())) => {}, Ok(Err(d)) => ctx.fail("C16.wire.stream", wit(), d), Err(p) => ctx.fail("C16.wire.stream", wit(), p) }
+                }
+            }
+            sp.nontrivial(1);
+        });
+        sp.outcomes_n("sequences-of-2", (alphabet.len() * alphabet.len()) as u64); sp.outcomes_n("sequences-of-3", (alphabet.len().pow(3)) as u64);
+        sp.sample_str(|| "[Err(12, 5), Eod1, Sn] read by try_read(Ipv4Prefix)+skip_payload, Header::read+read_payload, read".into());
+        sp.done(true, "all sequences of length 2 and 3 x 5 serial rotations x all combinations of read routes");
+    }
 
     ctx.finish();
 }
